@@ -65,6 +65,7 @@ fixed("FX-C10-04", "C10", "4f16a78", "32 goroutines encoding []T of a recursive 
 fixed("FX-C05-05", "C05", "189c5fc", "Valid(\"\\\"\\\\uZZZZ\\\"\") was true: the stream string decoder did not check the hex digits of \\u escapes (was KF-C05-08, KF-C18-V08, KF-C09-R04)")
 fixed("FX-C07-05", "C07", "8eeaac1", "{\"A\":null} into struct{A level; B [7]byte} (level: int8 with UnmarshalText) zeroed B: the TextUnmarshaler decoder stored a pointer-sized nil on null whatever the destination type (noticed by the seeded-change agent for C07, wave 4)")
 fixed("FX-C10-05", "C10", "facc6a6", "MarshalNoEscape(&v) with v unused afterwards, 2..64 goroutines under GC pressure: the value was collected and its memory reused during encoding (race detector: read in vm.Run / AppendInt vs allocation write; 'found pointer to free object'; encodeNoEscape did not pin its argument); present in the original tree")
+fixed("FX-C05-06", "C05", "89981db", "Valid(\",0\"), Valid(\":0\") and Valid(\"{ }]\") were true: Valid inherited the Decoder's skipping of one leading separator and asked More(), which is false for closing brackets, about trailing bytes (was the Valid half of KF-C05-09/-11, KF-C18-V09/V11)")
 fixed("FX-C07-06", "C07", "92cf9c1", "newArrayDecoder read 8 bytes from a fresh zero value of the element type: out of bounds for [N]uint8 and other elements smaller than a pointer (-asan: use-after-poison in decoder.newArrayDecoder on the first decode into such an array; found by the thorough tier's asan variant)")
 fixed("FX-C16-02", "C16", "722e84b", "\"16.0\", \"1e2\", \"0.5\" into an integer stored the digit prefix: NewDecoder(\"16.0\").Decode(&uint8) = nil, 16; {\"1.5\":true} into map[int]bool stored key 1; {\"v\":\"1e2\"} with ,string stored 1; Unmarshal reported a syntax error at the leftover (was KF-C16-03 fraction/exponent classes, KF-C09-01, KF-C02-04, KF-C02-04b)")
 fixed("FX-C16-03", "C16", "26b55f9", "Unmarshal(\"-\", &int64) = nil, value 0 (was KF-C16-01)")
@@ -89,6 +90,7 @@ fixed("FX-C02-03", "C02", "17431c1", "Decoder.Decode({\"\\ud83dx\":5,\"A\":1}) i
 ALL15 = r"(Valid|Unmarshal(NoEscape|Context|WithOption\(FirstWin\))?:.+|Decode(Context|WithOption\(FirstWin\)|\(\d-byte reads\)|\(UseNumber[A-Za-z,]*\))?:.+)"
 STREAM = r"(Valid|Decode(Context|WithOption\(FirstWin\)|\(\d-byte reads\)|\(UseNumber[A-Za-z,]*\))?:.+)"
 SKIPPERS = r"(Valid|Decode(Context|WithOption\(FirstWin\)|\(\d-byte reads\)|\(UseNumber[A-Za-z,]*\))?:.+|Unmarshal(Context|WithOption\(FirstWin\)):struct\{A\}|Unmarshal:(struct\{\}|struct\{A\}(\(after-options\))?|struct\{N Number\}|\[0\]int|\[1\]iface|RawMessage|Unmarshaler|\[\]RawMessage|map\[string\]Unmarshaler))"
+DECODER = r"(Decode(Context|WithOption\(FirstWin\)|\(\d-byte reads\)|\(UseNumber[A-Za-z,]*\))?:.+)"
 M = "accept-language"
 known("KF-C05-01", "C05", M, ALL15, "ok-vs-err", r"relax=num:parsefloat-grammar",
       'Unmarshal("01"), ("1."), ("-.5"), ("1.e1") succeed',
@@ -118,18 +120,18 @@ known("KF-C05-05", "C05", M, STREAM, "ok-vs-err", r"relax=stream:nul-skipped",
 known("KF-C05-05b", "C05", M, STREAM, "ok-vs-err", r"relax=stream:nul-skipped-unmodelled",
       'a Decoder fed 2 bytes at a time accepts "\\x00}{": NUL bytes met while the reader can still deliver data are stepped over, here in positions the recogniser\'s nul-skipped relaxation does not model',
       "see KF-C05-05", "other stream-only acceptances of texts with an embedded NUL", "same sentinel design as KF-C05-03")
-known("KF-C05-09", "C05", M, STREAM, "ok-vs-err", r"relax=stream:leading-comma-or-colon-skipped",
-      'Valid(",0") and Valid(":0") are true',
+known("KF-C05-09", "C05", M, DECODER, "ok-vs-err", r"relax=stream:leading-comma-or-colon-skipped",
+      'NewDecoder(",0").Decode(&v) and NewDecoder(":0").Decode(&v) succeed',
       "internal/decoder/stream.go PrepareForDecode skips one ',' or ':' before every value (used for Token-driven streaming)",
       "stream acceptances that start with one separator", "PrepareForDecode is also what makes Decode work after Token(); needs state to tell the cases apart")
 known("KF-C05-10", "C05", M, STREAM, "ok-vs-err", r"relax=stream:skip-ignores-junk-before-value",
       'NewDecoder("x1").Decode(&RawMessage) = "x1", nil',
       "internal/decoder/stream.go skipValue: bytes that cannot start a value are stepped over",
       "stream acceptances with junk before a skipped value", "part of the unvalidated skip scanner (KF-C05-04)")
-known("KF-C05-11", "C05", M, STREAM, "ok-vs-err", r"relax=stream:trailing-after-top",
-      'Valid("{ }]") is true',
-      "json.go Valid: returns true when More() is false, and More() is false for ']' and '}'; Decoder leaves trailing bytes to the next Decode, which reports EOF for some",
-      "other trailing-garbage acceptances by Valid / a drained Decoder", "Valid is defined through the stream decoder")
+known("KF-C05-11", "C05", M, DECODER, "ok-vs-err", r"relax=stream:trailing-after-top",
+      'NewDecoder("{ }]") : Decode succeeds and the following More() is false / Decode reports EOF, so the harness\'s one-complete-text protocol takes the text as accepted',
+      "internal/decoder/stream.go More() is false for ']' and '}'; a Decoder leaves trailing bytes to the next Decode (Valid, which had the same answer, was repaired in 89981db)",
+      "other trailing-garbage acceptances by a drained Decoder", "More() answers the question of the Token-driven loop; the Decoder keeps no container state")
 known("KF-C05-12", "C05", M, "Valid", "err-vs-ok", r"valid-text-rejected:float64-range-number",
       'Valid("6e5535") is false (encoding/json.Valid: true)',
       "json.go Valid decodes into interface{}, so a number beyond float64 fails with a range error",
@@ -137,8 +139,7 @@ known("KF-C05-12", "C05", M, "Valid", "err-vs-ok", r"valid-text-rejected:float64
 
 # ------------------------------------------------------------------ C18
 C18_VALID = [("01", r"relax=num:parsefloat-grammar", "KF-C05-01"), ("02", r"relax=str:raw-ctl", "KF-C05-02"), ("03", r"relax=nul-terminates", "KF-C05-03"),
-             ("04", r"relax=skip:unvalidated", "KF-C05-04"), ("05", r"relax=stream:nul-skipped", "KF-C05-05"), ("09", r"relax=stream:leading-comma-or-colon-skipped", "KF-C05-09"), ("10", r"relax=stream:skip-ignores-junk-before-value", "KF-C05-10"),
-             ("11", r"relax=stream:trailing-after-top", "KF-C05-11")]
+             ("04", r"relax=skip:unvalidated", "KF-C05-04"), ("05", r"relax=stream:nul-skipped", "KF-C05-05"), ("10", r"relax=stream:skip-ignores-junk-before-value", "KF-C05-10")]
 for n, ctx, same in C18_VALID:
     known("KF-C18-V" + n, "C18", "util-valid", "Valid", "ok-vs-err", ctx,
           "Valid accepts a text encoding/json.Valid rejects (%s); same root cause as %s" % (ctx, same),
